@@ -6,6 +6,7 @@ use serde_json::{json, Value};
 
 pub mod util;
 pub mod c18;
+pub mod c17;
 
 pub struct Report {
     pub name: String,
@@ -70,6 +71,7 @@ pub fn main() {
     }
     let rep = match args.name.as_str() {
         "c18_corpus" => c18::corpus(&args),
+        "c17_sweep" => c17::sweep(&args),
         other => {
             eprintln!("unknown check {}", other);
             std::process::exit(2);
